@@ -122,6 +122,291 @@ class LimitsAreMonotone(Lemma):
 
 
 # ----------------------------------------------------------------------------
+# the search that proposes the candidates: VariantPeptideDict.find_miscleaved_nodes
+# ----------------------------------------------------------------------------
+class _Bag5:
+    """a dict / set of variant ids the search only fills; its size is an unknown number"""
+    def __init__(self, name):
+        self.name = name
+
+    def sym_contains(self, I, item):
+        return I.e.bool(f'{self.name}_has')
+
+    def sym_setitem(self, I, key, v):
+        return None
+
+    def sym_len(self, I):
+        n = I.e.int(f'len_{self.name}')
+        I.e.assume(n >= 0)
+        return n
+
+    def sym_method(self, I, name, a, k):
+        if name in ('keys', 'add', 'update'):
+            return self if name == 'keys' else None
+        raise Unsupported(f'{self.name}.{name}')
+
+
+class _StopAlt(View):
+    """the downstream stop-altering variants of a node (unknown number)"""
+    def __init__(self, e, of):
+        self.of = of
+        self.n = e.int('n_stop_altering')
+        e.assume(self.n >= 0)
+
+    def length(self):
+        return self.n
+
+    def get(self, i):
+        return SymObj('VariantRecord', id=SymObj('VarId'))
+
+
+class _Batch(View):
+    """a path of nodes (one pending batch of the search)"""
+    def __init__(self, owner, name, base=None, extra=None):
+        self.owner, self.name, self.base, self.extra = owner, name, base, extra
+        if base is None:
+            self.n = owner._I.e.int(f'len_{name}')
+            owner._I.e.assume(self.n >= 1)
+
+    def length(self):
+        return self.n if self.base is None else self.base.length() + (1 if self.extra is not None else 0)
+
+    def get(self, i):
+        if self.base is not None:
+            raise Unsupported('indexing an extended batch')
+        return SymObj('PVGNode', _in=self.name, cpop_collapsed=self.owner._I.e.bool('member_collapsed'), variants=self.owner.variants_view('member'))
+
+    def sym_getitem(self, I, idx):
+        if idx == -1 and self.base is None:
+            return self.owner._cur.cur_node
+        raise Unsupported(f'{self.name}[{idx!r}]')
+
+    def sym_method(self, I, name, a, k):
+        if name == 'append' and self.base is not None and self.extra is None:
+            self.extra = a[0]
+            return None
+        raise Unsupported(f'{self.name}.{name}')
+
+
+@register
+class MiscleavedSearch(Contract):
+    """the only places where the search depends on the limits: a series is proposed iff it is not too short and not (too long without a
+    selenocysteine that could end it earlier); a path is not extended further iff the miscleavage budget is used up, or it is too long without a
+    trailing selenocysteine, or it exceeds the variant budget; the start node alone ends the search only when it is too long and holds no
+    selenocysteine. Everything else that stops an extension (stop node, truncated node, hybrid node of a circRNA, backsplicing-only) does
+    not depend on the limits"""
+    path, qualname, props = VPD, 'VariantPeptideDict.find_miscleaved_nodes', ('C05',)
+    declared_raises = ['ValueError']
+    cover_any = True
+    assumptions = ('summary: MiscleavedNodeSeries.is_too_long / is_too_short are their proved contracts (this module) seen as predicates of the '
+                   'series; has_trailing_selenocysteins, node predicates and variant sets are external (unconstrained)',
+                   'the worklist (deque) holds arbitrary batches: the contract is per batch and per extension, not about the order of the search')
+
+    def setup(self, I):
+        e = I.e
+        self._I = I
+        st = types.SimpleNamespace(appended=[], queued=[], series=[])
+        st.misc = e.int('miscleavage')
+        st.mvpn, st.avpm = e.int('max_variants_per_node'), e.int('additional_variants_per_misc')
+        st.params = SymObj('CleavageParams', miscleavage=st.misc, max_variants_per_node=st.mvpn, additional_variants_per_misc=st.avpm)
+        st.self_params = SymObj('CleavageParams', _own=True)
+        st.circ, st.bs = e.bool('is_circ_rna'), e.bool('backsplicing_only')
+        st.has_orfs = e.branch(e.bool('orfs_given'), 'orfs')
+        st.node_sec = e.bool('start_node_has_selenocysteine')
+        st.node_flags = dict(cpop_collapsed=e.bool('start_collapsed'), truncated=e.bool('start_truncated'))
+        st.n_sub0 = e.int('n_subgraphs_of_start_node')
+        st.node = SymObj('PVGNode', _start=True, selenocysteines=types.SimpleNamespace(sym_truth=lambda I2: st.node_sec), variants=self.variants_view('start'), **st.node_flags)
+        st.leading = SymObj('PVGNode', _leading=True)
+        st.data = types.SimpleNamespace(sym_method=lambda I2, name, a, k: st.appended.append(a[0]) if name == 'append' else (_ for _ in ()).throw(Unsupported(name)))
+        st.args = [SymObj('VariantPeptideDict', cleavage_params=st.self_params), st.node, [SymObj('Orf')] if st.has_orfs else [], st.params, 'ENST_T', 'ENSG_G', st.leading,
+                   SymObj('Subgraphs'), st.circ, st.bs]
+        self._cur = st
+        return st
+
+    def variants_view(self, tag):
+        e = self._I.e
+        n = e.int(f'n_variants_{tag}')
+        return FnView(n, lambda i: SymObj('VarWithCoord', variant=SymObj('VariantRecord', id=SymObj('VarId'))), tag=f'variants of {tag}')
+
+    @property
+    def models(self):
+        c = self
+
+        def inst(reg):
+            def mk_nodes(I, a, k):
+                st = c._cur
+                I.e.prove('C05/search/result-built-with-the-given-parameters-and-orfs', k.get('cleavage_params') is st.params and k.get('leading_node') is st.leading)
+                st.result = SymObj('MiscleavedNodes', data=st.data)
+                return st.result
+            reg.ctor_('MiscleavedNodes', mk_nodes)
+
+            def mk_series(I, a, k):
+                st = c._cur
+                s_ = SymObj('Series5', nodes=a[0], add=a[1], n=len(st.series), tl=I.e.bool('series_too_long'), ts=I.e.bool('series_too_short'),
+                            trsec=I.e.bool('series_has_trailing_selenocysteine'))
+                st.series.append(s_)
+                return s_
+            reg.ctor_('MiscleavedNodeSeries', mk_series)
+
+            def limit(name):
+                def h(I, o, a, k):
+                    I.e.prove('C05/search/limits-checked-against-the-parameters-of-the-dictionary', a[0] is c._cur.self_params)
+                    return o.fields[name]
+                return h
+            reg.method_('Series5', 'is_too_long', limit('tl'))
+            reg.method_('Series5', 'is_too_short', limit('ts'))
+            reg.method_('Series5', 'has_trailing_selenocysteins', lambda I, o, a, k: o.fields['trsec'])
+            reg.method_('PVGNode', 'get_downstream_stop_altering_variants', lambda I, o, a, k: _StopAlt(I.e, o))
+            reg.method_('PVGNode', 'is_hybrid_node', lambda I, o, a, k: o.fields.get('hybrid', False))
+
+            def subgraph_ids(I, o, a, k):
+                st = c._cur
+                if o is st.node:
+                    return types.SimpleNamespace(sym_len=lambda I2: st.n_sub0)
+                return SymObj('IdSet')
+            reg.method_('PVGNode', 'get_subgraph_id_set', subgraph_ids)
+
+            class Queue:
+                def sym_truth(s_, I2):
+                    return I2.e.bool('worklist_nonempty')
+
+                def sym_method(s_, I2, name, a, k):
+                    st = c._cur
+                    if name == 'pop':
+                        st.cur_node = SymObj('PVGNode', _cur=True, cpop_collapsed=I2.e.bool('cur_collapsed'), variants=c.variants_view('cur'),
+                                             out_nodes=FnView(I2.e.int('n_out'), lambda i: c.out_node(i), tag='out nodes'))
+                        st.cur_batch = _Batch(c, 'cur_batch')
+                        return st.cur_batch
+                    if name == 'append':
+                        st.queued.append(a[0])
+                        return None
+                    raise Unsupported(f'queue.{name}')
+            reg.ext_('deque', lambda I, a, k: Queue() if a and isinstance(a[0], list) and a[0] and isinstance(a[0][0], list) else c._cur.data)
+            reg.ext_('collections.deque', lambda I, a, k: Queue() if a and isinstance(a[0], list) and a[0] and isinstance(a[0][0], list) else c._cur.data)
+
+            def copy_(I, a, k):
+                v = a[0]
+                if isinstance(v, _Batch):
+                    return _Batch(c, 'copy', base=v, extra=v.extra) if v.base is None else _Batch(c, 'copy', base=v.base, extra=v.extra)
+                raise Unsupported(f'copy.copy({v!r})')
+            reg.ext_('copy.copy', copy_)
+
+            def comp(I, node, env, view, kind):
+                st = c._cur
+                if isinstance(view, _Batch) and kind == 'list' and node.generators[0].ifs:
+                    # [x for x in cur_batch if not x.cpop_collapsed]: its length is the number of uncleaved joints + 1
+                    st.n_unc = I.e.int('n_not_collapsed')
+                    I.e.assume(z3.And(st.n_unc >= 0, st.n_unc <= view.length()))
+                    return types.SimpleNamespace(sym_len=lambda I2: st.n_unc)
+                if isinstance(view, _Batch) and kind == 'list':
+                    return [SymObj('IdSet')]
+                if kind == 'set':
+                    return _Bag5('ids')
+                return None
+            reg.comprehension_hooks.append(comp)
+            reg.set_hooks.append(lambda v: (lambda I, v: _Bag5('cur_vars')) if isinstance(v, _Bag5) else None)
+            # set().union(*[ids of every node of the batch]): a set of unknown size (n_sub_batch)
+            reg.value_methods.append(lambda obj, name: (lambda I, o, a, k: types.SimpleNamespace(sym_len=lambda I2: c._cur.n_sub_batch))
+                                     if isinstance(obj, set) and name == 'union' else None)
+        return (inst,)
+
+    def out_node(self, i):
+        e = self._I.e
+        st = self._cur
+        st.out = types.SimpleNamespace(hybrid=e.bool('out_hybrid'), truncated=e.bool('out_truncated'), collapsed=e.bool('out_collapsed'), L=e.int('out_len'),
+                                       star=e.bool('out_starts_with_stop'))
+        e.assume(st.out.L >= 0)
+        seq = PStr.sym(e, 'out_seq', st.out.L)
+        e.assume(st.out.star == z3.And(st.out.L >= 1, seq.get(0) == ord('*')))
+        st.out.node = SymObj('PVGNode', _out=True, hybrid=st.out.hybrid, truncated=st.out.truncated, cpop_collapsed=st.out.collapsed, seq=SymObj('AASeq', seq=seq),
+                             variants=self.variants_view('out'))
+        return st.out.node
+
+    # ---- loop 0: while queue
+    def havoc0(self, I, env, k):
+        pass
+
+    def head0(self, I, env, k):
+        st = self._cur
+        st.m0 = (len(st.appended), len(st.queued), len(st.series))
+        st.n_sub_batch = I.e.int('n_subgraphs_of_batch')
+        st.expanded = False
+
+    def step0(self, I, env, k):
+        st = self._cur
+        ncl = st.n_unc - 1
+        return [('batch-expanded-iff-the-miscleavage-budget-is-not-used-up', z3.BoolVal(st.expanded) == (ncl < st.misc))]
+
+    # ---- loop 3: out nodes of the last node of the batch
+    def head3(self, I, env, k):
+        st = self._cur
+        st.expanded = True
+        st.m3 = (len(st.appended), len(st.queued), len(st.series))
+        st.nv = None
+
+    def step3(self, I, env, k):
+        st = self._cur
+        o = st.out
+        app, qd, ser = st.appended[st.m3[0]:], st.queued[st.m3[1]:], st.series[st.m3[2]:]
+        ncl = st.n_unc - 1
+        blocked = z3.Or(z3.And(st.circ, o.hybrid), o.truncated, z3.And(o.L == 1, o.star), z3.And(st.bs, st.n_sub_batch == 1))
+        items = [('at-most-one-series-and-one-extension-per-out-node', len(app) <= 1 and len(qd) <= 1 and len(ser) <= 1)]
+        # the variant budget is the one comparison whose outcome the contract does not follow: `over` is read from the path
+        over = getattr(st, 'over_budget', None)
+        if ser:
+            s_ = ser[0]
+            tl_cut = z3.And(s_.fields['tl'], z3.Not(s_.fields['trsec']))
+            items.append(('series-built-from-the-batch-extended-by-this-node-with-its-own-stop-altering-variants',
+                          isinstance(s_.fields['nodes'], _Batch) and s_.fields['nodes'].base is st.cur_batch and s_.fields['nodes'].extra is o.node
+                          and isinstance(s_.fields['add'], _StopAlt) and s_.fields['add'].of is o.node))
+            items.append(('series-only-for-a-cleaved-node-that-is-not-blocked', z3.And(z3.Not(blocked), z3.Not(o.collapsed))))
+            items.append(('proposed-iff-not-too-short-and-not-too-long-without-a-trailing-selenocysteine',
+                          z3.BoolVal(len(app) == 1 and app[0] is s_) == z3.And(z3.Not(tl_cut), z3.Not(s_.fields['ts']))))
+            items.append(('extended-iff-not-cut-for-length-and-budget-left', z3.BoolVal(len(qd) == 1) == z3.And(z3.Not(tl_cut), ncl + 1 < st.misc)))
+        else:
+            items.append(('nothing-proposed-without-a-series', not app))
+            if qd:
+                items.append(('extended-without-a-series-only-through-a-collapsed-node', z3.And(z3.Not(blocked), o.collapsed)))
+            else:
+                items.append(('dropped-without-a-series-only-if-blocked-or-over-the-variant-budget', z3.Or(blocked, st.avpm != -1)))
+        for b in qd:
+            items.append(('extension=batch-plus-this-node', isinstance(b, _Batch) and b.base is st.cur_batch and b.extra is o.node))
+        return items
+
+    @property
+    def loops(self):
+        T = lambda I, env, k: []
+        U = dict(target_after='unknown')
+        H = lambda I, env, k: None
+        return {0: LoopSpec(inv=T, havoc=self.havoc0, on_head=self.head0, step=self.step0),
+                1: LoopSpec(inv=T, havoc=lambda I, env, k: env.__setitem__('batch_vars', _Bag5('batch_vars')), **U),
+                2: LoopSpec(inv=T, havoc=H, **U),
+                3: LoopSpec(inv=T, havoc=H, on_head=self.head3, step=self.step3, **U),
+                4: LoopSpec(inv=T, havoc=lambda I, env, k: env.__setitem__('cur_vars', _Bag5('cur_vars')), **U)}
+
+    def post_return(self, I, st, ret):
+        e = I.e
+        e.prove('C05/search/returns-the-collection-it-filled', ret is st.result)
+        # the first block (start node alone): its series is series[0] when it was built
+        elig = z3.And(z3.Not(z3.Or(st.node_flags['cpop_collapsed'], st.node_flags['truncated'])), z3.Or(z3.Not(st.bs), st.n_sub0 > 1))
+        first = [s_ for s_ in st.series if s_.fields['n'] == 0 and isinstance(s_.fields['nodes'], list)]
+        if first:
+            s0 = first[0]
+            early = not hasattr(st, 'm0')
+            e.prove('C05/search/start-series-only-for-an-eligible-start-node', elig)
+            if early:
+                e.prove('C05/search/search-ends-at-the-start-node-only-if-it-is-too-long-and-holds-no-selenocysteine', z3.And(s0.fields['tl'], z3.Not(st.node_sec)))
+            else:
+                e.prove('C05/search/search-continues-unless-the-start-node-is-too-long-without-selenocysteine', z3.Not(z3.And(s0.fields['tl'], z3.Not(st.node_sec))))
+                e.prove('C05/search/start-series-proposed-iff-not-too-short', z3.BoolVal(any(a is s0 for a in st.appended)) == z3.Not(s0.fields['ts']))
+        else:
+            e.prove('C05/search/no-start-series-only-for-an-ineligible-start-node', z3.Not(elig))
+
+    def post_raise(self, I, st, exc):
+        I.e.prove('C05/search/raise/only-without-orfs', exc.cls == 'ValueError' and not st.has_orfs)
+
+
+# ----------------------------------------------------------------------------
 # Native side: bounded paired runs of the real callVariant
 # ----------------------------------------------------------------------------
 from pyvc.native import NativeCheck
